@@ -87,6 +87,19 @@ static void do_op(int s, int thread) {
   else ASSERT(0, "unknown op letter");
   ir_cur = me;
 }
+static int hist_pos;
+/* execute the next operation of the sequence on behalf of `thread` */
+static _Bool hist_step(int thread) {
+  if (hist_pos >= NOPS) return 0;
+  int s = hist_pos; char c = OPS[s];
+  if (c == 'R') { hist_pos = s + 1; if (npend > 0) run_one_worker(0); HDUMP("after worker"); }                 /* a worker takes the oldest pending hand-off */
+  else if (c == 'L') { hist_pos = s + 1; if (npend > 0) run_one_worker(npend - 1); }    /* a worker takes the newest pending hand-off */
+  else { int n = op_len(s); if (OPS[s + n] == '^') { n++; n += op_len(s + n); }        /* a nested op is consumed by the item body */
+         hist_pos = s + n; do_op(s, thread); HDUMP("after op"); }
+  return 1;
+}
+/* a client thread sleeps: client thread 2 issues the next operation (a sleeping thread does not stop the others) */
+static _Bool hist_other_client_step(void) { if (hist_pos >= NOPS) return 0; int me = ir_cur; _Bool r = hist_step(2); ir_cur = me; return r; }
 static u64 mkqueue(_Bool conc, _Bool inact, u64 target) {
   /* attribute = &_dispatch_queue_attrs[idx]; idx = (!concurrent) * 2 ... + inactive (see _dispatch_queue_attr_to_info); only address arithmetic is done on the table */
   u64 idx = (conc ? 0 : 1) * 2 + (inact ? 1 : 0);
@@ -120,7 +133,7 @@ void harness(void) {
   rootq = IR_LD64(Q[nq > 1 ? 1 : 0] + P_OFF_do_targetq);
 #ifdef PRESUSPEND
   /* C06: pre-load the inline suspend counter close to its overflow point so that the side counter is exercised by a short history */
-  SYM(in_presuspend); ASSUME(in_presuspend >= PRESUSPEND_MIN && in_presuspend <= PRESUSPEND_MAX);
+  in_presuspend = PRESUSPEND;      /* concrete (case split by the driver: 61, 62, 63): a symbolic count makes every later word an if-then-else */
   IR_ST64(Q[0] + P_OFF_dq_state, IR_LD64(Q[0] + P_OFF_dq_state) + in_presuspend * 0x0400000000000000ull); suspend_cnt[0] = (int)in_presuspend;
   IR_ST32(Q[0] + P_OFF_ref, IR_LD32(Q[0] + P_OFF_ref) + 2);     /* a suspended queue holds +2 (see _dispatch_lane_suspend) */
 #endif
@@ -128,13 +141,8 @@ void harness(void) {
   IR_ST64(Q[0] + P_OFF_do_ctxt, 0xC0FFEEull); IR_ST64(Q[0] + P_OFF_do_finalizer, FN_FINALIZER);
 #endif
   /* the operation loop is written out (no loop construct): cbmc keeps every index constant */
-  int s = 0;
-#define HIST_STEP() if (s < NOPS) { char c = OPS[s]; \
-    if (c == 'R') { if (npend > 0) run_one_worker(0); HDUMP("after worker"); s++; }                 /* a worker takes the oldest pending hand-off */ \
-    else if (c == 'L') { if (npend > 0) run_one_worker(npend - 1); s++; }    /* a worker takes the newest pending hand-off */ \
-    else { do_op(s, 0); HDUMP("after op"); s += op_len(s); if (OPS[s] == '^') { s++; s += op_len(s); } } }   /* a nested op is consumed by the item body */
-  HIST_STEP() HIST_STEP() HIST_STEP() HIST_STEP() HIST_STEP() HIST_STEP() HIST_STEP() HIST_STEP()
-  ASSERT(s >= NOPS, "harness bound: sequence longer than 8 operations");
+  hist_step(0); hist_step(0); hist_step(0); hist_step(0); hist_step(0); hist_step(0); hist_step(0); hist_step(0);
+  ASSERT(hist_pos >= NOPS, "harness bound: sequence longer than 8 operations");
   /* drain phase: workers run until nothing is pending */
   for (int r = 0; r < NITEMS + 4 && npend > 0; r++) run_one_worker(0);
   ASSERT(npend == 0, "harness bound: workers still pending after the drain phase");
@@ -154,6 +162,8 @@ void harness(void) {
   }
   for (int k = 0; k < NQ; k++) if (k < nq && !(k == 0 && released_q0)) {
     u64 st = IR_LD64(Q[k] + P_OFF_dq_state);
+    ASSERT((st >> 58) + IR_LD32(Q[k] + P_OFF_side_cnt) == (u64)suspend_cnt[k], "COUNT: the queue's suspend count (inline + side) equals suspends minus resumes");
+    ASSERT(((st & 0x0200000000000000ull) != 0) == (IR_LD32(Q[k] + P_OFF_side_cnt) > 0), "COUNT: side-count bit consistent with the side counter");
     ASSERT((st & 0x3fffffffull) == 0, "quiescent queue has no drain owner");
     if (suspend_cnt[k] == 0 && !inactive[k]) ASSERT(IR_LD64(Q[k] + P_OFF_items_tail) == 0, "quiescent runnable queue has an empty item list");
   }
@@ -162,7 +172,7 @@ void harness(void) {
                      ASSERT(dispose_q[0] == 1, "the queue object was deallocated exactly once"); }
   else ASSERT(finalizer_runs == 0 && dispose_q[0] == 0, "LIFETIME: the queue is not finalized while the client holds a reference");
 #endif
-  WITNESS_IF(nsub >= 1 && runs[nsub - 1] == 1, "history completed, last item ran");
+  WITNESS_REACHED("end of the history reached (every assertion above was evaluated)");
 #ifdef WITNESS_EXTRA
   WITNESS_EXTRA;
 #endif
